@@ -9,6 +9,12 @@ inductive Op where
   | TS (t j : Nat)      -- tracer t := (span j).TracerProvider().Tracer("t<t>")
   | IM | IT | IP | GM (lvl : Nat) | GT | N | F | Y
   | XM | XT | XP        -- self-set: Set…Provider(Get…Provider()) / SetTextMapPropagator(GetTextMapPropagator())
+  | RB (c k : Nat) (is : List Nat)   -- RegisterCallback on meter k naming an observable of ANOTHER meter: the placeholder
+                        -- accepts it, the SDK will reject it when the registration is forwarded
+  | IP2                 -- otel.SetTextMapPropagator(Baggage{}) — a second, different propagator
+  | PG (id : Nat)       -- Inject through otel.GetTextMapPropagator() obtained at call time
+  | OC (c : Nat)        -- overlapping collections of the delegate's two readers, reader 0 parked inside callback c
+  | CC (n : Nat)        -- n free-running collection cycles of each of the two readers, concurrently
   | par (threads : List (List Op))
 deriving Repr
 
